@@ -102,7 +102,7 @@ def c16_strata(tier: str) -> List[Stratum]:
 
 
 def c18_strata(tier: str) -> List[Stratum]:
-    m = 4 if tier == "quick" else 5
+    m = 4 if tier == "quick" else 6
     n = len(tg.life_cases(m))
     return [
         Stratum("all-sequences", n, lambda r, i: tg.gen_c18(r, i, m), systematic=True,
@@ -142,7 +142,7 @@ def c07_strata(tier: str) -> List[Stratum]:
 
 
 def c17_strata(tier: str) -> List[Stratum]:
-    m = 4 if tier == "quick" else 6
+    m = 5 if tier == "quick" else 7
     n = len(ug.c17_cases(m))
     return [
         Stratum("all-sequences", n, lambda r, i: ug.gen_c17(r, i, m), systematic=True,
